@@ -277,6 +277,7 @@ def rule_averages(r):
     r.check(n > 100, "sasmodels/kernel_iq.c", "*", "carried sums examined in %d 1-D kernels" % (n // 6 if n else 0), 0)
 
 
+from . import extra3 as _x3
 RULES = [
     ("R-C07-averages", 300, "P's averaged volumes and R_eff are carried correctly across kernel invocations (shared with C01)", rule_averages),
     ("R-C07-layout", 100, "slice arithmetic = assembly order, all (P,S) at once", rule_layout),
@@ -284,6 +285,7 @@ RULES = [
     ("R-C07-inject", 14, "R_eff and volfraction injection", rule_inject),
     ("R-C07-reported", 9, "reported intermediates are the values used", rule_reported),
     ("R-C07-guards", 9, "structural guards on S", rule_guards),
+    ("R-C07-sign", 20, "Fq writes a signed amplitude (no sqrt/fabs) in every have_Fq unit", _x3.make_sign_rule("R-C07-sign")),
 ]
 
 
